@@ -32,6 +32,7 @@ func runC05(c *Check) {
 	c07LockOrder(c, "C05.O5", r)
 	c05DeliverUntilSettled(c, "C05.O3", r)
 	c11Handoff(c, "C05.O6", r)
+	gcSafety(c, "C05", r)
 }
 
 // c05DeliverUntilSettled: the deliver function (whose return releases a
